@@ -28,6 +28,8 @@ RULES = [
      PARTIAL, "panics on overflow / zero divisor under debug assertions"),
     (r"^iter::Iterator::(step_by|sum|product)$", PARTIAL, "step_by(0) panics; sum/product overflow-check in debug builds"),
     (r"^iter::(Sum|Product)::(sum|product)$", PARTIAL, "overflow-checks in debug builds"),
+    (r"^collections::hash_map::(VacantEntry::(insert|key|into_key)|OccupiedEntry::(get|get_mut|into_mut|key|insert|remove))$", TOTAL,
+     "total (allocation failure aborts: see C08)"),
     (r"^(vec::Vec|collections::\w+::\w+|string::String)::(remove|swap_remove|insert|split_off|drain|truncate_front|"
      r"with_capacity|reserve|reserve_exact|push|push_str|extend_from_slice|resize|from_elem)$", PARTIAL,
      "index preconditions and/or capacity overflow / allocation failure abort"),
